@@ -11,6 +11,21 @@ CLAIMED = {
    technique=TECH + ": seeded cooperative scheduler (random/PCT/quantum) over real goroutines, simulated sync, history invariants, schedule minimisation"),
 }
 
+CLAIMED.update({
+ "C03": dict(engine="scope", design="§3 C03",
+   text="Seeded simulation of the scope analyser's only nondeterminism - Go map iteration order - plus a differential oracle: each generated scoping program (nested module/function/class/lambda/comprehension scopes, global/nonlocal/del/augassign/defaults/closures, 1 in 6 with one forbidden declaration) is compiled and executed under 6-10 simulator-chosen map orders (always ascending and descending); code dumps and traces must be identical across orders and the trace (or compile-time rejection) must equal CPython's for the same source.",
+   note="Trusted: rewrite R1 (range-over-map -> simrt.Iter, produces only orders the Go spec allows), CPython 3.11 as reference for scoping; UnboundLocalError is folded into NameError; __class__/super() and walrus are outside the fragment.",
+   technique=TECH + ": seeded map-iteration-order seam, repetition under adversarial orders, CPython reference trace"),
+ "C11": dict(engine="srcfault", design="§3 C11", level="fault_enumeration",
+   text="Stream-fault injection into the compile pipeline: valid sources (repo .py windows, generated programs, grammar-covering snippets) are damaged by 1-3 modelled faults (EOF at an arbitrary byte, bit flips, inserted control/invalid-UTF-8/token fragments, deletions, duplicated/swapped lines, indentation corruption) and delivered as a string or through a faulty io.Reader (short reads, zero reads, read error after k bytes) in exec/single/eval mode; the call must return a code object or a SyntaxError-family exception with file/line/offset within a deterministic step budget (hang = budget overflow), never a panic, SystemError, other class or (nil,nil). Seeded sampling of the fault space, not token-sequence enumeration.",
+   note="Trusted: the step counter inserted at every function entry / loop head of parser, symtable, compile; py.IsException for the SyntaxError family. Exhaustive short token sequences (the property's 'explored' text) are not enumerated: that is bounded model checking, not this technique.",
+   technique=TECH + ": fault-injecting source stream (EOF/corruption/short reads/read errors), deterministic step budget, totality invariant"),
+ "C18": dict(engine="compiledet", design="§3 C18",
+   text="Seeded simulation of concurrent and repeated compilation: 1-4 cooperative tasks compile repository .py files, generated programs, eval expressions and single statements, each compile under its own simulator-chosen map order, interleaved at every function entry and loop head of parser/symtable/compile (random/PCT/quantum schedulers), optionally beside a program running in a context; every code-object dump must equal the key's baseline dump (first compile, alone, ascending order), error classes must agree, and the running program's trace must equal its solo trace.",
+   note="Trusted: rewrites R1/R3; DumpCode covers bytecode, consts (recursively), names, varnames, free/cellvars, cell2arg, flags, arg counts, stacksize, firstlineno, lnotab, filename, name. Weak-memory data races are not visible to the cooperative scheduler.",
+   technique=TECH + ": seeded cooperative interleaving of compile tasks + map-order seam, structural code-object comparison against a solo baseline"),
+})
+
 NA = {
  "C01": "pure function of the program text (evaluation order/grouping): no schedule, clock, fault or environment history to simulate; needs enumeration against a reference semantics",
  "C02": "which statement raises/returns is fixed by program + inputs; the unwinding loop is deterministic and single-threaded; no simulation target",
@@ -25,12 +40,9 @@ NA = {
  "C16": "attribute lookup is a function of the class-hierarchy program; no concurrency or environment choice enters",
 }
 PENDING = {
- "C03": "engine `scope` (seeded map order in the scope analyser + CPython reference) not built yet",
  "C05": "engine `gens` not built yet",
  "C08": "engine `isolation` not built yet",
- "C11": "engine `srcfault` not built yet",
  "C17": "engine `containers` not built yet",
- "C18": "engine `compiledet` not built yet",
  "C19": "engine `imports` not built yet",
  "C20": "engine `repl` not built yet",
 }
